@@ -301,6 +301,83 @@ func c18Explore(res *Result, raw json.RawMessage, job *Job) {
 				}
 			}
 		}
+	case "growth":
+		// A table that grows after it has recorded traffic starts a fresh sampling period: no aging step may happen
+		// before the new period's 10 x capacity recordings were made, and within the period no key is under-counted.
+		// Many distinct keys (default mixing hash) so that the period can be filled although counters saturate at 15.
+		idx := 0
+		for _, c1 := range p.Caps {
+			for _, c2 := range []uint64{9, 17, 40, 100} {
+				for _, nk := range []int{6, 12, 40} {
+					pr := otter.VerifNewSketch()
+					pr.EnsureCapacity(c1)
+					s1 := int(pr.SampleSize())
+					for _, m1 := range []int{0, 1, s1 / 2, s1 - 1} {
+						idx++
+						if job.Shards > 1 && idx%job.Shards != job.Shard {
+							continue
+						}
+						if time.Now().After(deadline) {
+							timedOut = true
+							return
+						}
+						res.Executions++
+						Progress.Add(1)
+						vdet.Reset()
+						sk := otter.VerifNewSketch()
+						sk.EnsureCapacity(c1)
+						ops := []string{fmt.Sprintf("ensureCapacity(%d); %d recordings over %d keys; ensureCapacity(%d); recordings round-robin", c1, m1, nk, c2)}
+						for i := 0; i < m1; i++ {
+							sk.Increment(i % nk)
+						}
+						tl := sk.TableLen()
+						sk.EnsureCapacity(c2)
+						grew := sk.TableLen() != tl
+						if !grew {
+							continue
+						}
+						res.Counters["growths-after-traffic"]++
+						period := int(sk.SampleSize())
+						lb := make([]uint64, nk)
+						since := 0
+						fresh := true
+						prevSize := sk.Size()
+						n := period*2 + 5
+						for i := 0; i < n; i++ {
+							k := (i * 7) % nk
+							sk.Increment(k)
+							since++
+							res.Steps++
+							if sk.Size() < prevSize {
+								if fresh && since < period {
+									fail("premature-aging", "increment", ops, "the table grew to capacity %d (sampling period %d recordings); an aging step happened after only %d recordings of the new period", c2, period, since)
+								}
+								for j := range lb {
+									if j == k {
+										lb[j] = min(15, lb[j]+1) / 2
+									} else {
+										lb[j] /= 2
+									}
+								}
+								fresh = false
+								res.Counters["natural-resets"]++
+							} else if lb[k] < 15 {
+								lb[k]++
+							}
+							prevSize = sk.Size()
+							for j := range lb {
+								if f := sk.Frequency(j); f < lb[j] {
+									fail("under-count", "frequency", ops, "after %d recordings on the grown table frequency(%d) = %d although the key was recorded at least %d times in this period", i+1, j, f, lb[j])
+								} else if f > 15 {
+									fail("over-15", "frequency", ops, "frequency(%d) = %d exceeds 15", j, f)
+								}
+							}
+						}
+						states[fmt.Sprint(c1, c2, nk, m1)] = struct{}{}
+					}
+				}
+			}
+		}
 	case "admit":
 		// every (candidate, victim) estimate pair and a set of random answers
 		rands := []uint32{0, 1, 127, 128, 255, 256, 0x7fffffff, 0xffffff80, 0xffffffff}
